@@ -1,5 +1,6 @@
 import Yuiv.Proofs.C09Inv
 import Yuiv.Proofs.C09Rel
+import Yuiv.Proofs.C09Shape
 import Mathlib.Algebra.Field.ZMod
 /-
 C09 — Smith normal form: `D = P·A·Q`, diagonal divisibility chain, true inverses.
@@ -236,6 +237,23 @@ theorem snf_transform_inv_int {m n : Nat} (A : Mat Int m n) (fuel : Nat) (s : St
 example : (match snfCalc intOps true (fun s => .ok s) 50 (⟨#v[#v[2, 4], #v[6, 8]]⟩ : Mat Int 2 2) with
     | .ok s => diagL s.t == [2, 4]
     | _ => false) = true := by decide +kernel
+
+/-! ### towards `snf_shape` (partial): the loop exit conditions
+
+Not proved: that these exit conditions, accumulated over `eliminate_all`, give a diagonal matrix, and that the
+final multiplication by units keeps the chain.  The full shape is established per instance by `isSnfShape`. -/
+
+/-- `eliminate_at(i, j)` returns only when row `i` and column `j` have at most one non-zero entry -/
+theorem snf_shape_partial_pivot_isolated {e : EOps α} {m n : Nat} (dbg : Bool) (i : Fin m) (j : Fin n)
+    (fuel : Nat) (s s' : St α m n) (h : eliminateAt e dbg i j fuel s = .ok s') :
+    rowNz e s'.t i ≤ 1 ∧ colNz e s'.t j ≤ 1 := eliminateAt_exit dbg i j fuel s s' h
+
+/-- the `'outer` loop of `diag_normalize` returns only when `d_k.divides(d_{k+1})` for all adjacent pairs among the
+first `r` diagonal entries -/
+theorem snf_shape_partial_chain {e : EOps α} {m n : Nat} (dbg : Bool) (r fuel : Nat) (s s' : St α m n)
+    (h : diagOuter e dbg r fuel s = .ok s') (k : Nat) (hk : k + 1 < r ∧ k + 1 < m ∧ k + 1 < n) :
+    e.dvd (s'.t.get ⟨k, Nat.lt_of_succ_lt hk.2.1⟩ ⟨k, Nat.lt_of_succ_lt hk.2.2⟩)
+      (s'.t.get ⟨k + 1, hk.2.1⟩ ⟨k + 1, hk.2.2⟩) = true := diagOuter_chain dbg r fuel s s' h k hk
 
 /-! ### (W) the local `gcdx` wrapper (`snf.rs:437-446`)
 
